@@ -58,8 +58,8 @@ TABLE_NOTE = (
     "column and row elements among the table's children - these are decided by the correspondence / lxml oracles of the check at every step. The history "
     "theorems exclude one state: rows without any declared column (only reachable by deleting the last column of a table that has rows), where the property "
     "does not say what a later operation should declare; histories are cut there on both sides. The proved alphabet holds 13 operations incl. the bulk setters set_cells and "
-    "set_values (with the fast path of Row.set_values); set_row_values / set_row_cells are instances of set_row; set_column_values is in the executable model "
-    "and the correspondence but not in the proved alphabet. "
+    "set_values (with the fast path of Row.set_values); set_row_values / set_row_cells are instances of set_row; set_column_values has its own one-step "
+    "refinement theorem (it is defined only for a list as long as the table is high, so it is not a member of the history alphabet). "
 )
 CHECKS["C01"] = dict(
     text="Refinement proof: for every coherent run-length state, every operation of the alphabet (set/insert/append/delete of cells, rows, columns, with "
